@@ -156,3 +156,11 @@ Proof.
   pose proof (flat_path_hits _ _ _ _ _ Hok E) as Hh. unfold Hits in Hh. simpl in Hh.
   eapply Forall2_impl; [|exact Hh]. intros p lf (q & -> & Hq). exact Hq.
 Qed.
+
+(* slicing and concatenating paths composes access *)
+Theorem get_path_app o p q :
+  get_path o (p ++ q) = match get_path o p with Some x => get_path x q | None => None end.
+Proof.
+  revert o. induction p as [|e p IH]; intros o; [reflexivity|].
+  cbn [app get_path]. destruct (obj_child o e) as [c|]; [apply IH | reflexivity].
+Qed.
